@@ -134,7 +134,27 @@ def handleAdd (st : RibSt) (op : Op) (oks fails : List Nat) (fatal : Bool) : Rib
     else if out.fatal ≠ fatal then st.diff "add.fatal" s!"op={op.id} model={out.fatal} impl={fatal}"
     else st
 
+/-- referrers of a group / next-hop among the contents last observed (for the C03 verdict monitor) -/
+def referrersOf (ents : Map EKey Payload) (ni : NI) : Key → Option Nat
+  | .nhg g => some (ents.countP (fun e => e.1.2.isTop && Rib.tgtNI e.1.1 e.2 == ni && e.2.grp == g))
+  | .nh n => some (ents.countP (fun e => (match e.1.2 with | .nhg _ => true | _ => false) && e.1.1 == ni && e.2.nhs.contains n))
+  | _ => none
+
 def handleDel (st : RibSt) (op : Op) (oks fails : List Nat) (fatal : Bool) : RibSt :=
+  -- C03 monitor on the verdict, judged on the implementation's own contents before the call: a
+  -- well-formed DELETE of a group or next-hop that no installed entry refers to (installed or not)
+  -- succeeds; one that an installed entry refers to is refused
+  let st := if st.blind then st else
+    match referrersOf st.implEnts op.ni op.key with
+    | some 0 =>
+      if op.cls == .wf && st.model.nis.contains op.ni && !(match op.key with | .nhg 0 | .nh 0 => true | _ => false) && fails.contains op.id
+      then st.monfail "c03" s!"DELETE {op.id} of {showKey op.key} in {op.ni} was refused although no installed entry refers to it"
+      else st
+    | some n =>
+      if oks.contains op.id && Map.has st.implEnts (op.ni, op.key)
+      then st.monfail "c03" s!"DELETE {op.id} of {showKey op.key} in {op.ni} succeeded although {n} installed entries refer to it"
+      else st
+    | none => st
   let st := failedTrace st oks fails
   let st := { st with ops := st.ops.insert op.id op }
   let st := st.covr ("del." ++ dtryName (st.model.classifyDel op))
